@@ -302,6 +302,10 @@ var c03Fixed = []string{
 	"(struct (f - (map i32 (struct (f - str) (f - (slice i64))))))",
 	"(struct (f (t 0 3 1 1) (slice i64)) (f (t 0 1 0 1) i32))",
 	"(struct (f - raw) (f - (ptr raw)) (f - (slice raw)))",
+	"(struct (f - (ptr raw)))", // single pointer field leading to a Message implementation: the toplevel flag must not leak into the size pass
+	"(struct (f - raw))",
+	"(struct (f - (ptr (struct (f - (ptr raw))))))",
+	"(struct (f - (ptr (struct (f - raw) (f - i32)))))",
 	"(struct (f - (arr 8)) (f - (arr 9)) (f - (arr 0)))",
 	"(struct (f - (slice (ptr i32))) (f - (slice (ptr (struct (f - bool))))))",
 }
